@@ -252,6 +252,11 @@ def run_case(stream, seed, ctx, params):
         from .geomcommon import run_deck
         d = G.build_flat_deck(rng, macro_p=0.1, imp0_p=0.0, p_obf=0.4, depth=rng.randint(2, 5),
                               nsurf=rng.randint(3, 7), ncells=rng.randint(1, 3))
+        if rng.random() < 0.3:
+            d2 = G.build_flat_deck(rng, macro_p=0.6, imp0_p=0.0, p_obf=0.3, depth=rng.randint(2, 4),
+                                   nsurf=rng.randint(2, 5), ncells=rng.randint(1, 3))
+            G.big_surface_ids(d2, rng)
+            d = d2
         return run_deck(ctx, stream, d, ['--skip-deduplication'] if rng.random() < 0.5 else [], rng, npts=150,
                         with_comp=False)
     if stream in ('complement', 'boolmon'):
